@@ -96,7 +96,12 @@ func (s *nsess) point() {
 func (s *nsess) emit(op, res string, nontrivial bool) {
 	s.v.ops = append(s.v.ops, op)
 	s.point()
-	s.v.view = s.v.look()
+	if msg, p := vh.Guard(func() string { s.v.view = s.v.look(); return "" }); p {
+		s.v.fail("the governance state after " + op + " cannot be read back: " + msg)
+		s.ended = true
+		s.run.Op(op, res+" | unreadable", nontrivial)
+		return
+	}
 	s.run.Op(op, res+" | "+s.v.show(s.v.view), nontrivial)
 }
 
@@ -471,6 +476,9 @@ func (s *nsess) memoryReport() string {
 }
 
 func (s *nsess) after() {
+	if s.ended || s.v.view == nil {
+		return
+	}
 	v := s.v.view
 	// clause 4 at node level: memory = what the loaders rebuild from the best block's state
 	if ok, why := s.n.observe().coherent(); !ok {
